@@ -10,9 +10,12 @@
 //!   arm crash|fail|unknown <n_model> <n_real>     fault on the (n+1)-th coming backend mutation
 //!   disarm
 //!
-//! `n_model` counts the mutations the model knows (document objects, ids, meta, checkpoint,
-//! watermark, intents, one manifest commit per index); `n_real` counts every backend mutation
-//! (bucket objects, obsolete-object deletes and database-level objects included).
+//! `arm <kind> <km> <b>`: `km` counts the mutations the model knows (document objects, ids, meta,
+//! checkpoint, watermark, intents, one manifest commit per index). On the plain backend `b` is the
+//! number of further *abstracted* mutations (bucket objects, obsolete-object deletes, database-level
+//! objects) let through after the km-th one before a crash — so a fault position does not depend on how
+//! many bucket objects the index crates happen to write. On the wrapper backends (no model) `b`
+//! counts every raw backend mutation.
 
 pub const WORDS: [&str; 5] = ["alpha", "beta", "gamma", "delta", "omega"];
 pub const KEYS_A: u64 = 5;
